@@ -101,7 +101,7 @@ func NewPool() *Pool {
 	if err != nil {
 		panic(err)
 	}
-	return &Pool{self: self, Timeout: 20 * time.Second}
+	return &Pool{self: self, Timeout: 10 * time.Second}
 }
 
 func (p *Pool) start() error {
